@@ -8,23 +8,29 @@ import c09 as G9          # generators / exact oracles shared with C09 (same dir
 ID = 'C10'
 COQ_FILES = ['Base/Mat.v', 'Base/SumQ.v', 'Model/Clustering.v', 'Proofs/ClusteringSpec.v', 'Proofs/Clustering.v',
              'Proofs/ClusteringReduce.v', 'Model/Distance.v', 'Model/EfficiencyLocal.v', 'Model/Assortativity.v',
+             'Model/IgnoreWeights.v', 'Model/Walks.v',
              'Proofs/ReduceDistance.v', 'Proofs/ReduceEfficiencyLocal.v', 'Proofs/ReduceAssortativity.v',
-             'Properties/C10.v']
+             'Proofs/ReduceTotal.v', 'Proofs/ReduceIgnore.v', 'Properties/C10.v']
 THEOREMS = ['C10_cc_wu_bin_eq_bu', 'C10_cc_wd_bin_eq_bd', 'C10_trans_wu_bin_eq_bu', 'C10_trans_wd_bin_eq_bd',
             'C10_cc_bd_sym_eq_bu', 'C10_cc_wd_sym_eq_wu', 'C10_trans_bd_sym_eq_bu', 'C10_trans_wd_sym_eq_wu',
             'C10_cbrt_exact_ok_binary', 'C10_strengths_bin_eq_degrees', 'C10_in_out_deg_sym', 'C10_degrees_ignore_weights',
             'C10_distance_wei_bin_eq_bin', 'C10_efficiency_wei_bin_eq_bin', 'C10_efficiency_local_wei_bin_eq_bin',
-            'C10_efficiency_local_cbrt_exact', 'C10_assortativity_wei_bin_eq_bin', 'C10_assortativity_bin_ignores_weights']
+            'C10_efficiency_local_cbrt_exact', 'C10_assortativity_wei_bin_eq_bin', 'C10_assortativity_bin_ignores_nonneg_weights',
+            'C10_assortativity_bin_ignores_weights_refuted',
+            'C10_density_ignores_weights', 'C10_jdegree_ignores_weights', 'C10_edge_nei_overlap_ignores_weights',
+            'C10_findwalks_reachdist_ignore_weights', 'C10_distance_efficiency_bin_ignore_weights']
 RULE = ('pairs of public functions evaluated on the same matrix: all undirected 0/1 graphs n<=4 (quick) / n<=5 (thorough), all '
         'digraphs n<=3 / n<=4, random 0/1 graphs and symmetric weighted graphs n<=8 (weights m^3/512), disconnected graphs, '
         'isolated nodes; weighted (directed and undirected, weights k/8 and >1) vs binarised input for the routines whose '
         'docstring says weights are ignored/discarded; non-trivial = the matrix has at least one edge; distinct by hash of '
         '(pair, matrix)')
 ASSUMES = ['PROVED between the Coq models: clustering_coef wu/bu wd/bd bd/bu wd/wu, transitivity likewise, strengths/degrees, '
-           'in/out-degree on symmetric input, degrees_* ignore weights',
-           'TESTED ONLY (differential, no Coq model in this property): distance_wei/bin, betweenness_wei/bin, edge_betweenness_wei/bin, '
-           'efficiency_wei/bin global and local, assortativity_wei/bin flag 0, and f(W)==f(binarize(W)) for assortativity_bin, jdegree, '
-           'density_und/dir, edge_nei_overlap_bu/bd, findwalks, findpaths, reachdist',
+           'in/out-degree on symmetric input; distance_wei/distance_bin (D and hop counts), efficiency_wei/efficiency_bin global and '
+           'local, assortativity_wei/assortativity_bin (flags 0-4) on 0/1 input; f(W)==f(binarize(W)) for degrees_*, assortativity_bin '
+           '(non-negative weights), density_und/dir, jdegree, edge_nei_overlap_bu/bd, findwalks, reachdist, distance_bin, efficiency_bin',
+           'TESTED ONLY (differential, models belong to C08): betweenness_wei/bin, edge_betweenness_wei/bin on 0/1 input; findpaths raises '
+           '(known finding)',
+           'the integer-input models (distance_bin, efficiency_bin, findwalks, reachdist) are fed 8*W for weights k/8',
            'tolerance 1e-9 relative; inf == inf, nan == nan']
 TRUSTED = ['cbrt is universally quantified in the theorems (hypothesis cbrt_ok: a cube root of the entries); cbrt_exact meets it on '
            'every 0/1 matrix (C10_cbrt_exact_ok_binary) and on the generated cube weights']
@@ -83,6 +89,49 @@ def decode_model(kind, m):
         return None if m is None else np.array([[np.inf if x is None else float(x) for x in row] for row in m], dtype=float).reshape(len(m), len(m))
     if kind == 'dwei':                      # option (matrix of option Q, matrix of nat)
         return None if m is None else (dec_len_mat(m[0]), np.array(m[1], dtype=float).reshape(len(m[1]), len(m[1])))
+    raise ValueError(kind)
+
+
+def cmp_ignore_model(kind, m, impl):
+    """extracted model of a weight-ignoring routine vs the implementation's return value (exact: counts / small quotients)"""
+    if kind == 'density':                   # (option Q, k)  vs  (kden, n, k)
+        return m[0] is not None and int(m[1]) == int(impl[2]) and abs(float(dec_q(m[0])) - float(impl[0])) <= 1e-12
+    if kind == 'jdegree':                   # (J rows, (J_od, (J_id, J_bl)))  vs  (J, J_od, J_id, J_bl)
+        J = np.array([[dec_z(x) for x in row] for row in m[0]], dtype=float)
+        Ji = np.asarray(impl[0], dtype=float)
+        return (J.shape == Ji.shape and np.array_equal(J, Ji) and dec_z(m[1][0]) == impl[1]
+                and dec_z(m[1][1][0]) == impl[2] and dec_z(m[1][1][1]) == impl[3])
+    if kind == 'enov':                      # option [((i,j), ec), (degi, degj)]  vs  (EC, ec, degij) or ZeroDivisionError
+        if isinstance(impl, ZeroDivisionError):
+            return m is None
+        if m is None:
+            return False
+        EC, ec, degij = impl
+        n = len(EC); EC2 = np.full((n, n), np.inf)
+        if len(m) != len(ec):
+            return False
+        for e, ((ij, q), (d1, d2)) in enumerate(m):
+            if abs(float(dec_q(q)) - ec[e]) > 1e-12 or float(dec_q(d1)) != degij[0, e] or float(dec_q(d2)) != degij[1, e]:
+                return False
+            EC2[ij[0], ij[1]] = float(dec_q(q))
+        return bool(np.all((EC2 == EC) | (np.abs(EC2 - EC) <= 1e-12)))
+    if kind == 'reachdist':                 # option (R rows of bool, D rows of option Z)  vs  (R, D)
+        if m is None:
+            return False
+        R = np.array(m[0], dtype=bool).reshape(len(m[0]), len(m[0]))
+        D = np.array([[np.inf if x is None else float(dec_z(x)) for x in row] for row in m[1]], dtype=float).reshape(R.shape)
+        return np.array_equal(R, np.asarray(impl[0], dtype=bool)) and np.array_equal(D, np.asarray(impl[1], dtype=float))
+    if kind == 'findwalks':                 # option ((Wq slices, twalk), wlq)  vs  (Wq[n,n,n], twalk, wlq) or IndexError (n < 2)
+        if isinstance(impl, IndexError):
+            return m is None
+        if m is None:
+            return False
+        (Wq, tw), wl = m
+        Wi = np.asarray(impl[0], dtype=float)
+        for q, sl in enumerate(Wq):
+            if not np.array_equal(np.array([[dec_z(x) for x in row] for row in sl], dtype=float).reshape(Wi.shape[0], Wi.shape[1]), Wi[:, :, q]):
+                return False
+        return dec_z(tw) == impl[1] and [dec_z(x) for x in wl] == [int(x) for x in np.asarray(impl[2]).ravel()]
     raise ValueError(kind)
 
 
@@ -164,6 +213,53 @@ class Pairs:
         for fl in ((1, 2, 3, 4) if directed else (0,)):
             self.corr('assortativity_bin', 'optq', 'assort %s 0 %d' % (Q, fl), A, lambda M, fl=fl: bct.assortativity_bin(M, fl))
             self.corr('assortativity_wei', 'optq', 'assort %s 1 %d' % (Q, fl), A, lambda M, fl=fl: bct.assortativity_wei(M, fl))
+
+    def corr_ignore(self, W, directed):
+        """the routines documented to ignore weights, run on the WEIGHTED matrix against their models (which, by the
+        C10_*_ignore(s)_weights theorems, return the same on the binarised matrix)"""
+        bct = self.bct
+        Q = enc_mat(W, enc_q)
+        Z8 = enc_mat([[int(8 * x) for x in row] for row in W])        # the same matrix with integer weights 8*w
+        A = G9.npm(W)
+
+        def add(fn, kind, line, f, tolerate=()):
+            try:
+                impl = call(f, A.copy())
+            except tolerate as e:
+                impl = e
+            except Exception:
+                return
+            self.ctx.count('model:' + fn)
+            self.lines.append(line); self.pend.append(('ign:' + kind + ':' + fn, {'fn': fn, 'W': G9.strs(W)}, impl))
+        add('jdegree', 'jdegree', 'jdegree ' + Q, lambda M: tuple(bct.jdegree(M)))
+        add('reachdist', 'reachdist', 'reachdist ' + Z8, lambda M: tuple(bct.reachdist(M)))
+        add('findwalks', 'findwalks', 'findwalks ' + Z8, lambda M: tuple(bct.findwalks(M)), (IndexError,))
+        if directed:
+            add('density_dir', 'density', 'density %s 0' % Q, lambda M: tuple(bct.density_dir(M)))
+            add('edge_nei_overlap_bd', 'enov', 'enov %s 0' % Q, lambda M: tuple(bct.edge_nei_overlap_bd(M)), (ZeroDivisionError,))
+        else:
+            add('density_und', 'density', 'density %s 1' % Q, lambda M: tuple(bct.density_und(M)))
+            add('edge_nei_overlap_bu', 'enov', 'enov %s 1' % Q, lambda M: tuple(bct.edge_nei_overlap_bu(M)), (ZeroDivisionError,))
+
+    def ignore_negative(self, W, directed, family):
+        """assortativity_bin on a matrix with NEGATIVE weights: the docstring says all weights are ignored, the code selects
+        edges by `CIJ > 0` (C10_assortativity_bin_ignores_weights_refuted); key kept apart from the non-negative clause"""
+        bct = self.bct
+        ctx = self.ctx
+        A = G9.npm(W); Bn = (A != 0).astype(float)
+        for fl in ((1, 2, 3, 4) if directed else (0,)):
+            case = {'pair': 'assortativity_bin:ignores_weights_negative', 'flag': fl, 'W': G9.strs(W)}
+            ctx.case(case, nontrivial=any(x < 0 for row in W for x in row)); ctx.count('ignores_negative:assortativity_bin'); ctx.count('family:' + family)
+            try:
+                with np.errstate(all='ignore'):
+                    a = call(bct.assortativity_bin, A.copy(), fl); b = call(bct.assortativity_bin, Bn.copy(), fl)
+            except Exception as e:
+                ctx.fail('assortativity_bin:raises', repr(e), case); continue
+            ctx.check(same(a, b), 'assortativity_bin:ignores_weights_negative',
+                      'result depends on the (negative) weights: %r on W, %r on binarize(W)' % (float(a), float(b)), case)
+            Q = enc_mat(W, enc_q)
+            self.corr('assortativity_bin', 'optq', 'assort %s 0 %d' % (Q, fl), W, lambda M, fl=fl: bct.assortativity_bin(M, fl))
+            self.corr('assortativity_wei', 'optq', 'assort %s 1 %d' % (Q, fl), W, lambda M, fl=fl: bct.assortativity_wei(M, fl))
 
     def corr_weighted(self, W, directed, cubes):
         """weighted input (cube weights m^3/512 when the cube root is involved): the weighted models and the
@@ -303,8 +399,16 @@ def run(ctx):
             Wd = G9.rand_dir(r, n, dens * 0.7, any_w)
             P.ignore_weights(Wu, False, 'weighted_und'); P.ignore_weights(Wd, True, 'weighted_dir')
             P.corr_weighted(Wu, False, False); P.corr_weighted(Wd, True, False)
+            P.corr_ignore(Wu, False); P.corr_ignore(Wd, True)
+            if t % 4 == 0:          # negative weights: the clause assortativity_bin does NOT meet (known finding)
+                sg = lambda M, sym: [[(-x if ((i * 7 + j * 3 + t) % 5 == 0 or (sym and (j * 7 + i * 3 + t) % 5 == 0)) else x) for j, x in enumerate(row)] for i, row in enumerate(M)]
+                Wn = sg(Wu, True)
+                Wn = [[Wn[min(i, j)][max(i, j)] for j in range(n)] for i in range(n)]      # keep it symmetric
+                P.ignore_negative(Wn, False, 'negative_weights_und'); P.ignore_negative(sg(Wd, False), True, 'negative_weights_dir')
             P.corr_weighted(W, False, True)
             P.corr_weighted(G9.rand_dir(r, n, dens * 0.7, G9.cube_w), True, True)
+        # the witness of C10_assortativity_bin_ignores_weights_refuted, replayed on the implementation
+        P.ignore_negative([[F(0), F(-2), F(1), F(0)], [F(-2), F(0), F(1), F(0)], [F(1), F(1), F(0), F(1)], [F(0), F(0), F(1), F(0)]], False, 'coq_witness')
         # exhaustive tiny weighted for the ignores clause
         vals = [F(0), F(3, 8), F(5, 2)]
         cells3 = [(i, j) for i in range(3) for j in range(3) if i != j]
@@ -315,6 +419,8 @@ def run(ctx):
             for (i, j), w in zip(cells3, ws):
                 W[i][j] = w
             P.ignore_weights(W, True, 'exhaustive_weighted_dir3')
+            if t % 7 == 0:
+                P.corr_ignore(W, True)
             if all(W[i][j] == W[j][i] for i in range(3) for j in range(3)):
                 P.ignore_weights(W, False, 'exhaustive_weighted_und3')
 
@@ -324,11 +430,19 @@ def run(ctx):
     for (fn, case, impl), m in zip(P.pend, res):
         if is_err(m):
             ctx.mismatch('model-error', m['error'], case); continue
-        if fn.startswith('corr:'):
+        if fn.startswith('ign:'):
+            _, kind, name = fn.split(':', 2)
+            try:
+                ok = cmp_ignore_model(kind, m, impl)
+            except Exception as e:
+                ok = False
+            if not ok:
+                ctx.mismatch(name, 'model and implementation differ', case, str(m)[:400], brief(impl) if not isinstance(impl, Exception) else repr(impl))
+        elif fn.startswith('corr:'):
             _, kind, name = fn.split(':', 2)
             M = decode_model(kind, m)
             if kind == 'optq':
-                ok = G9.sc_close(None if M is None else F(M).limit_denominator(10 ** 12) if False else M, impl)
+                ok = G9.sc_close(M, impl)
             elif M is None:
                 ok = False                     # the fuelled loop of the model did not return
             elif kind == 'dwei':
